@@ -529,6 +529,13 @@ class Interp(object):
             raise self.make_exn(exn)
         return bad
 
+    def prebuilt_exn(self, e):
+        """serializers raise a pre-built exception object: the SAME instance every time they fail"""
+        cache = self.__dict__.setdefault("_prebuilt", {})
+        if e["id"] not in cache:
+            cache[e["id"]] = self.make_exn(e)
+        return cache[e["id"]]
+
     def make_serfn(self, key, f):
         name = f[0]
         calls = self.ser_calls
@@ -544,16 +551,16 @@ class Interp(object):
             if name == "succ":
                 if isint:
                     return v + 1
-                raise self.make_exn(f[1])
+                raise self.prebuilt_exn(f[1])
             if name == "double":
                 if isint:
                     return 2 * v
-                raise self.make_exn(f[1])
+                raise self.prebuilt_exn(f[1])
             if name == "fail":
-                raise self.make_exn(f[1])
+                raise self.prebuilt_exn(f[1])
             if name == "failneg":
                 if isint and v < 0:
-                    raise self.make_exn(f[1])
+                    raise self.prebuilt_exn(f[1])
                 return v
             raise AssertionError(name)
         return fn
@@ -600,7 +607,8 @@ class Interp(object):
             return FileDestination(file=self.crashfile)
         if b[0] == "realfile":
             from eliot import FileDestination
-            self.realfile = open(b[1], "ab")
+            # b[2] == "text": a text-mode log file (as to_file(open(path, "a")) or sys.stdout give)
+            self.realfile = open(b[1], "a", encoding="utf-8", newline="") if len(b) > 2 and b[2] == "text" else open(b[1], "ab")
             return FileDestination(file=self.realfile)
 
         class Rec(object):
